@@ -120,7 +120,10 @@ int main(int argc, char** argv) {
         mpi::communicator c; int b = 0; mpi::request r = c.irecv(0, mpi::any_tag, b); c.send(0, 3, 9); mpi::status s = r.wait(); CHECK(b == 9 && s.tag() == 3 && s.source() == 0);
     }, nullptr});
     S.push_back({"rendezvous self-send w/o receive", 1, "deadlock", [](int rank, std::vector<std::string>& msgs) {
-        mpi::communicator c; int b = 0; c.send(0, 3, 9); c.recv(0, 3, b);
+        mpi::communicator c; int big[64] = {0}, b[64]; c.send(0, 3, big, 64); c.recv(0, 3, b, 64);   // 256 bytes: above the eager threshold
+    }, [](sim::Options& o) { o.rdv_pct = 100; }});
+    S.push_back({"tiny self-send w/o receive is eager", 1, "ok", [](int rank, std::vector<std::string>& msgs) {
+        mpi::communicator c; int b = 0; c.send(0, 3, 9); c.recv(0, 3, b); CHECK(b == 9);
     }, [](sim::Options& o) { o.rdv_pct = 100; }});
     S.push_back({"recv-recv deadlock", 2, "deadlock", [](int rank, std::vector<std::string>& msgs) {
         mpi::communicator c; int b = 0; c.recv(1 - rank, 0, b); c.send(1 - rank, 0, 1);
